@@ -194,6 +194,10 @@ def _same(a, b):
         return len(a) == len(b) and all(any(_same(x, y) for y in b) for x in a)
     if isinstance(a, Struct) and isinstance(b, Struct):
         return list(a.keys()) == list(b.keys()) and all(_same(a[k], b[k]) for k in a)
+    if isinstance(a, Struct) != isinstance(b, Struct) and isinstance(a, (Struct, dict)) and isinstance(b, (Struct, dict)):
+        # a Python dict with str keys may legitimately be captured as a struct (impute_type): compare field-wise
+        da, db = dict(a.items()), dict(b.items())
+        return set(da) == set(db) and all(isinstance(k, str) and _same(da[k], db[k]) for k in da)
     if isinstance(a, dict) and isinstance(b, dict):
         return len(a) == len(b) and all(any(_same(k, k2) and _same(v, v2) for k2, v2 in b.items()) for k, v in a.items())
     if isinstance(a, Interval) and isinstance(b, Interval):
@@ -323,6 +327,25 @@ class Walker:
             else:
                 ctx.count('ref_not_resolved_by_metadata')
                 ctx.seen('unresolved_ref_kinds', ('toplevel ' if isinstance(x, ir.TopLevelReference) else 'var ') + ('agg_capability' if x.name == 'agg_capability' else x.name.rstrip('0123456789')))
+            return
+        if isinstance(x, (ir.ProjectedTopLevelReference, ir.SelectedTopLevelReference)):
+            # `t.f` / `t.row`: the declared type must be what the enclosing relational node binds for row / global / va / sa / g
+            env = c[0] or {}
+            bound = env.get(x.ref.name)
+            if bound is None:
+                ctx.count('ref_not_resolved_by_metadata')
+                ctx.seen('unresolved_ref_kinds', 'toplevel ' + x.ref.name)
+                return
+            ctx.count('contract_ref_binder')
+            try:
+                if isinstance(x, ir.ProjectedTopLevelReference):
+                    have = bound[x.field] if x.field in bound else None
+                else:
+                    have = bound._select_fields(x._typ.fields) if all(f in bound for f in x._typ.fields) else None
+            except Exception:
+                have = None
+            if have != x._typ:
+                self.problems.append(('ref/field-type-differs-from-relational-binder', f'{cls} {x.ref.name}.{getattr(x, "field", "*")} is declared {x._typ} but the enclosing relational node binds {have}', x))
             return
         # children first (so that cached types below are what the rule sees)
         for i, ch in enumerate(x.children):
@@ -669,7 +692,7 @@ def run(ctx):
     # ---- phase literal --------------------------------------------------------------------------
     import base64
 
-    N = ctx.pick(700, 5000)
+    N = ctx.pick(600, 3500)
     for i, rng in ctx.cases(N, 'literal'):
         t = gen_type(rng, hl)
         try:
@@ -708,12 +731,27 @@ def run(ctx):
                     typecheck_value(e2.dtype, v)
                 except TypeError as err:
                     hook.pending.append(('literal/value-does-not-satisfy-imputed-type', f'hl.literal(v) has dtype {e2.dtype} but typecheck(v) fails: {str(err)[:150]}', {}))
+                x2 = e2._ir
+                if isinstance(x2, ir.EncodedLiteral):
+                    try:
+                        back = e2.dtype._from_encoding(base64.b64decode(x2.encoded_value))
+                        ctx.count('contract_literal_roundtrip')
+                        if not _same(_plain(back), _plain(v)):
+                            hook.pending.append(('literal/encoding-does-not-decode-to-value', f'hl.literal(v) with imputed type {e2.dtype} decodes to {back!r:.200}', {}))
+                    except Exception as err:
+                        ctx.count('literal_roundtrip_failed')
+                        ctx.seen('literal_roundtrip_failures', type(err).__name__ + ': ' + str(err)[:70])
+                elif isinstance(x2, (ir.F64, ir.F32, ir.I32, ir.I64, ir.Str)) and not isinstance(v, bool):
+                    ctx.count('contract_literal_roundtrip')
+                    want_cls = {float: ir.F64, int: (ir.I32, ir.I64), str: ir.Str}.get(type(v))
+                    if want_cls is not None and (not isinstance(x2, want_cls) or not _same(x2.x, v)):
+                        hook.pending.append(('literal/primitive-literal-node-does-not-carry-value', f'hl.literal({v!r}) is rendered as {x2}', {}))
                 # the imputed type must be the declared one up to the documented ambiguities (int width, empty containers)
                 ctx.seen('imputed_vs_generated', 'same' if e2.dtype == t else 'differs')
         flush({'literal': info}, ('literal', str(t), repr(v)[:80]), info)
 
     # ---- phase expr -----------------------------------------------------------------------------
-    N = ctx.pick(350, 3000)
+    N = ctx.pick(300, 1800)
     for i, rng in ctx.cases(N, 'expr'):
         g = ExprGen(rng, hl, max_depth=rng.choice([3, 4, 5, 6]), p_share=rng.choice([0.2, 0.35]))
         ok, e = guarded('exprgen', g.program)
@@ -724,7 +762,7 @@ def run(ctx):
             flush(None, ('expr-rejected', i), {})
 
     # ---- phase api ------------------------------------------------------------------------------
-    N = ctx.pick(250, 2000)
+    N = ctx.pick(200, 1200)
     for i, rng in ctx.cases(N, 'api'):
         ops = api_catalogue(hl, rng)
         pool = []
@@ -794,6 +832,8 @@ def run(ctx):
                 ctx.count('contract_table_model')
                 if a != b:
                     hook.pending.append((f'table/{what.split("(")[0]}-{lab}-schema-differs-from-meaning', f'after {what}: {lab} is {a}, the method means {b}', {}))
+                    # report once: continue the program from what the front end says
+                    m.row, m.g, m.key = dict(t.row.dtype.items()), dict(t.globals.dtype.items()), list(t.key)
 
     def gen_field_expr(rng, t, S, depth=3):
         g = ExprGen(rng, hl, max_depth=rng.choice([4, 5, 6]), p_share=0.3)
@@ -823,7 +863,7 @@ def run(ctx):
         t = hl.Table.parallelize(rows, schema=st, key=key, globals=gl)
         return t, TModel(gm, dict(st.items()), key or []), 'parallelize'
 
-    N = ctx.pick(140, 1200)
+    N = ctx.pick(120, 700)
     for i, rng in ctx.cases(N, 'table'):
         ok, src = guarded('table_source', lambda: table_source(rng))
         if not ok:
@@ -1048,10 +1088,12 @@ def run(ctx):
                 ctx.count('contract_matrix_model')
                 if a != b:
                     hook.pending.append((f'matrix/{what.split("(")[0]}-{lab}-schema-differs-from-meaning', f'after {what}: {lab} is {a}, the method means {b}', {}))
+                    m.row, m.col, m.entry, m.g = dict(mt.row.dtype.items()), dict(mt.col.dtype.items()), dict(mt.entry.dtype.items()), dict(mt.globals.dtype.items())
+                    m.row_key, m.col_key = list(mt.row_key), list(mt.col_key)
 
     import copy
 
-    N = ctx.pick(90, 800)
+    N = ctx.pick(80, 450)
     for i, rng in ctx.cases(N, 'matrix'):
         mt = hl.utils.range_matrix_table(rng.randint(0, 5), rng.randint(0, 4))
         m = MModel({}, {'row_idx': hl.tint32}, {'col_idx': hl.tint32}, {}, ['row_idx'], ['col_idx'])
